@@ -200,3 +200,31 @@ func ZZ_C16_MemberOfAnotherClassIsError() {
 	var w zzTwo
 	vx.Assert("a member element of another class is an error", Unmarshal(b, &w) != nil)
 }
+
+type zzListHolder struct {
+	N int64   `ber:"tagNum:0"`
+	L []int64 `ber:"tagNum:1,optional"`
+}
+
+// Lists on arbitrary bytes: every byte string of 0..N octets decoded into a
+// SEQUENCE OF INTEGER, a SEQUENCE OF SEQUENCE OF and a structure with a list
+// member: error or value, no panic, and the element loop terminates (no
+// legitimate loop over an input of at most N octets runs more than N times, so
+// exceeding the unwinding bound or the instruction budget is a finding).
+//
+//gosx:property=C16 tier=quick strictcap unwind=24 nonterm=violation maxsteps=2000000 p.maxlen=8 p.maxlen.thorough=10
+func ZZ_C16_ListsRawBytes() {
+	b := zzInput("b", vx.Param("maxlen", 8))
+	switch vx.Choice("target", 3) {
+	case 0:
+		var w []int64
+		Unmarshal(b, &w)
+	case 1:
+		var w [][]int64
+		Unmarshal(b, &w)
+	default:
+		var w zzListHolder
+		Unmarshal(b, &w)
+	}
+	vx.Assert("decoder returned", true)
+}
